@@ -203,7 +203,7 @@ def evaluate(cases, workdir, want_cli=True):
             if cli['exit'] == 0 and exp_exit == 0:
                 # options / positional values seen by the actions of tasks named on the command line
                 for name, vals in m['cli_pos']:
-                    if name in cli['kwargs'] and list(cli['kwargs'][name].get('pos') or []) != vals:
+                    if name in cli['kwargs'] and [sellib.unsub(v) for v in (cli['kwargs'][name].get('pos') or [])] != vals:
                         r['div'].append('cli: %s received pos=%s, model %s' % (name, cli['kwargs'][name].get('pos'), vals))
             if cli.get('cwds') is not None and [c for c in cli['cwds'] if c != cli['expected_cwd']]:
                 r['div'].append('dodo: actions ran in %s, expected %s (layout %s)'
@@ -528,7 +528,7 @@ def run(ctx):
     n_random = (600 if ctx.tier == 'quick' else 24000) * ctx.boost
     for i in range(n_random):
         cases.append(sellib.gen_case(random.Random(rng.getrandbits(64))))
-    n_dodo = (48 if ctx.tier == 'quick' else 900) * ctx.boost
+    n_dodo = (48 if ctx.tier == 'quick' else 300) * ctx.boost
     for i in range(n_dodo):
         cases.append(sellib.gen_dodo_case(random.Random(rng.getrandbits(64))))
     if ctx.tier == 'thorough':
